@@ -1,0 +1,97 @@
+/*!
+Verification hooks. This module only exists when Jiff is compiled with
+`--cfg jiff_verif` and is not part of Jiff's API. It provides:
+
+* a mock offset for the monotonic clock used by cache expiration, so that
+  "the time-to-live has elapsed" is a deterministic event, and
+* a log of events emitted at the critical sections of the zoneinfo time zone
+  database cache. Each event gets its sequence number while the lock that
+  protects the state it describes is still held.
+*/
+
+use std::{
+    string::{String, ToString},
+    sync::{
+        atomic::{AtomicBool, AtomicU64, Ordering},
+        Mutex,
+    },
+    vec::Vec,
+};
+
+static CLOCK_OFFSET_NANOS: AtomicU64 = AtomicU64::new(0);
+static TRACING: AtomicBool = AtomicBool::new(false);
+static SEQ: AtomicU64 = AtomicU64::new(0);
+static LOG: Mutex<Vec<Event>> = Mutex::new(Vec::new());
+
+/// One event from a critical section.
+#[derive(Clone, Debug)]
+pub struct Event {
+    /// Global sequence number (assigned under the lock guarding the state).
+    pub seq: u64,
+    /// A small integer identifying the thread that emitted this event.
+    pub thread: u64,
+    /// The critical section / outcome.
+    pub kind: &'static str,
+    /// The time zone name as queried (or empty).
+    pub query: String,
+    /// Extra data (e.g., whether an entry was cached/expired/refreshed).
+    pub a: i64,
+    /// Extra data.
+    pub b: i64,
+}
+
+/// Advance the mocked monotonic clock by the given duration.
+pub fn advance_monotonic(by: std::time::Duration) {
+    CLOCK_OFFSET_NANOS.fetch_add(by.as_nanos() as u64, Ordering::SeqCst);
+}
+
+pub(crate) fn monotonic_offset() -> std::time::Duration {
+    std::time::Duration::from_nanos(CLOCK_OFFSET_NANOS.load(Ordering::SeqCst))
+}
+
+/// Turn event collection on or off (off by default).
+pub fn set_tracing(yes: bool) {
+    TRACING.store(yes, Ordering::SeqCst);
+}
+
+/// Remove and return all events collected so far.
+pub fn take_events() -> Vec<Event> {
+    core::mem::take(&mut *LOG.lock().unwrap())
+}
+
+/// Returns the next sequence number without emitting an event. Useful for
+/// a harness to order its own events relative to Jiff's.
+pub fn next_seq() -> u64 {
+    SEQ.fetch_add(1, Ordering::SeqCst)
+}
+
+fn thread_id() -> u64 {
+    static NEXT: AtomicU64 = AtomicU64::new(1);
+    std::thread_local! {
+        static ID: u64 = NEXT.fetch_add(1, Ordering::SeqCst);
+    }
+    ID.with(|id| *id)
+}
+
+/// Returns the small integer identifying the current thread in events.
+pub fn current_thread() -> u64 {
+    thread_id()
+}
+
+pub(crate) fn emit(kind: &'static str, query: &str, a: i64, b: i64) {
+    if !TRACING.load(Ordering::Relaxed) {
+        return;
+    }
+    // Lock order: a Jiff lock may be held here; the log mutex is always the
+    // innermost lock.
+    let mut log = LOG.lock().unwrap();
+    let seq = SEQ.fetch_add(1, Ordering::SeqCst);
+    log.push(Event {
+        seq,
+        thread: thread_id(),
+        kind,
+        query: query.to_string(),
+        a,
+        b,
+    });
+}
